@@ -31,3 +31,13 @@ Theorem C10_aws_decrypt_key_wipes_data_keys : forall regions t, all_clean t ->
   end.
 Proof. exact aws_decrypt_key_wipes. Qed.
 Print Assumptions C10_aws_decrypt_key_wipes_data_keys.
+
+(* fix M: the decrypted intermediate key is wiped on the path where the system key's secret reports an error after the callback ran *)
+Theorem C10_intermediate_key_from_record_wipes_plaintext_when_the_release_fails : forall unwrap_fails release_fails factory_fails t,
+  all_clean t -> all_clean (snd (ik_from_ekr unwrap_fails release_fails factory_fails t)).
+Proof. exact ik_from_ekr_wipes. Qed.
+Print Assumptions C10_intermediate_key_from_record_wipes_plaintext_when_the_release_fails.
+
+Theorem C10_before_fix_M_refuted : exists u r f t, all_clean t /\ ~ all_clean (snd (ik_from_ekr_before_fix u r f t)).
+Proof. exact ik_from_ekr_before_fix_refuted. Qed.
+Print Assumptions C10_before_fix_M_refuted.
